@@ -489,6 +489,7 @@ type DevEdit struct {
 	Target int    `json:"target"`
 	Kind   string `json:"kind"` // not-supported add replace delete
 	Prop   string `json:"prop,omitempty"`
+	Idx    int    `json:"idx,omitempty"` // which of several must / unique statements a delete names
 }
 
 func isKey(r sg.NodeRef) bool {
@@ -569,6 +570,9 @@ func options(r sg.NodeRef, cfgTrueAbove bool) [][2]string {
 			o = append(o, [2]string{"delete", "must"})
 		}
 	}
+	if n.Kind == "list" && len(n.Uniques) > 0 {
+		o = append(o, [2]string{"delete", "unique"})
+	}
 	if n.Kind == "list" || n.Kind == "leaf-list" {
 		if n.Min == "" {
 			o = append(o, [2]string{"add", "min-elements"})
@@ -638,8 +642,14 @@ func applyEdit(r sg.NodeRef, e DevEdit) (stmt string, remove bool) {
 		n.Musts = append(n.Musts, sg.Must{Expr: "1 = 1"})
 		return `must "1 = 1";`, false
 	case "delete:must":
-		s := fmt.Sprintf("must %q;", n.Musts[0].Expr)
-		n.Musts = n.Musts[1:]
+		i := e.Idx % len(n.Musts)
+		s := fmt.Sprintf("must %q;", n.Musts[i].Expr)
+		n.Musts = append(n.Musts[:i:i], n.Musts[i+1:]...)
+		return s, false
+	case "delete:unique":
+		i := e.Idx % len(n.Uniques)
+		s := fmt.Sprintf("unique %q;", n.Uniques[i])
+		n.Uniques = append(n.Uniques[:i:i], n.Uniques[i+1:]...)
 		return s, false
 	case "add:min-elements", "replace:min-elements":
 		n.Min = "2"
@@ -663,6 +673,14 @@ func genDev(t *rapid.T) DevCase {
 	uniqueNodes = map[*sg.Node]bool{}
 	noteUniques(c.Mods[0].Nodes)
 	refs := sg.ListNodes(c.Mods[0])
+	// some nodes carry several must statements, so that a delete can name one that is not the first
+	for _, r := range refs {
+		if r.Node.Kind != "choice" && r.Node.Kind != "case" && r.Node.Kind != "uses" && len(r.Node.Musts) > 0 && g.Chance(1, 3, "moremusts") {
+			for k := 0; k <= g.Pick(2, "nmoremusts"); k++ {
+				r.Node.Musts = append(r.Node.Musts, sg.Must{Expr: fmt.Sprintf(". != 'extra%d'", k)})
+			}
+		}
+	}
 	nd := 1 + g.Pick(3, "ndev")
 	used := map[int]bool{}
 	for i := 0; i < nd && len(refs) > 0; i++ {
@@ -687,7 +705,7 @@ func genDev(t *rapid.T) DevCase {
 		}
 		o := opts[g.Pick(len(opts), "opt")]
 		used[ti] = true
-		c.Devs = append(c.Devs, DevEdit{Target: ti, Kind: o[0], Prop: o[1]})
+		c.Devs = append(c.Devs, DevEdit{Target: ti, Kind: o[0], Prop: o[1], Idx: g.Pick(4, "which")})
 	}
 	return c
 }
